@@ -26,6 +26,7 @@ import (
 	"github.com/bitcoin-sv/block-headers-service/verifharness/rig"
 	"github.com/centrifugal/centrifuge-go"
 	"github.com/gin-gonic/gin"
+	"github.com/jmoiron/sqlx"
 	"github.com/rs/zerolog"
 )
 
@@ -344,6 +345,7 @@ type seq struct {
 	failed bool
 	rot    int
 	nops   map[string]int
+	lockSeq bool // this sequence contains one revoke under a reader's lock
 }
 
 func (s *seq) detail(extra map[string]any) map[string]any {
@@ -607,6 +609,36 @@ var opTable = []struct {
 	{"http-auth", 12}, {"ws-auth", 10}, {"restart", 4}, {"create-as-user", 2}, {"revoke-as-user", 3},
 }
 
+// lockEvery: one sequence in lockEvery additionally revokes one token while a reader holds a lock (a busy timeout each)
+const lockEvery = 10
+
+// holdReadLock opens a second connection to the SQLite file and keeps a read cursor open on the tokens table (a SHARED
+// lock) until release is called.
+func holdReadLock(path string) (release func(), err error) {
+	db, err := sqlx.Open("sqlite3", "file:"+path)
+	if err != nil {
+		return nil, err
+	}
+	tx, err := db.Begin()
+	if err != nil {
+		_ = db.Close()
+		return nil, err
+	}
+	rows, err := tx.Query("SELECT token FROM tokens")
+	if err != nil {
+		_ = tx.Rollback()
+		_ = db.Close()
+		return nil, err
+	}
+	if !rows.Next() {
+		_ = rows.Close()
+		_ = tx.Rollback()
+		_ = db.Close()
+		return nil, fmt.Errorf("no token row to hold a cursor on")
+	}
+	return func() { _ = rows.Close(); _ = tx.Rollback(); _ = db.Close() }, nil
+}
+
 func pickOp(rng *rand.Rand) string {
 	tot := 0
 	for _, o := range opTable {
@@ -628,6 +660,9 @@ func (s *seq) run(rng *rand.Rand, n int) {
 		kind := pickOp(rng)
 		if i < 3 {
 			kind = "create"
+		}
+		if i == 6 && s.lockSeq {
+			kind = "revoke-under-reader-lock"
 		}
 		switch kind {
 		case "create":
@@ -664,6 +699,27 @@ func (s *seq) run(rng *rand.Rand, n int) {
 					return
 				}
 			}
+		case "revoke-under-reader-lock":
+			// another connection holds an open read cursor on the database while the revocation commits: the commit can
+			// fail (busy). Whatever happens, the API's answer must be truthful: 2xx => the token is revoked.
+			if s.nops["revoke-under-reader-lock"] >= 1 {
+				continue // costs a busy timeout (seconds): at most once per sequence
+			}
+			t, ti, ok := m.pick(rng, true)
+			if !ok {
+				continue
+			}
+			s.op(kind, "revoke #%d while a second connection holds a read cursor", ti)
+			s.subj = t
+			release, err := holdReadLock(s.e.st.Path)
+			if err != nil {
+				s.r.Count("reader_lock_not_taken", 1)
+				continue
+			}
+			code := s.revoke(t, rig.AdminToken)
+			release()
+			s.r.Count("revokes_under_reader_lock", 1)
+			s.r.Count(fmt.Sprintf("revokes_under_reader_lock_status_%dxx", code/100), 1)
 		case "revoke-revoked":
 			t, ti, ok := m.pick(rng, false)
 			if !ok {
@@ -823,6 +879,7 @@ func body(r *ev.Run) {
 			rng := r.Rand(caseID)
 			n := 20 + rng.Intn(181)
 			s := &seq{e: e, r: r, caseID: caseID, m: newModel(), nops: map[string]int{}, last: "start"}
+			s.lockSeq = int(rng.Int63()%lockEvery) == 0
 			s.run(rng, n)
 			var sb strings.Builder
 			for _, l := range s.log {
